@@ -474,7 +474,7 @@ pub fn run(args: &Args, out: &mut Out, kind: &str) {
         custom.extend(std51);
         let mut config: HashMap<String, toml::value::Value> = HashMap::new();
         let mut t = toml::value::Table::new();
-        t.insert("ignore_pattern".to_owned(), toml::value::Value::String("^allowed".to_owned()));
+        t.insert("ignore_pattern".to_owned(), toml::value::Value::String("^allowed_[a-z]*$".to_owned()));
         config.insert("global_usage".to_owned(), toml::value::Value::Table(t));
         let c = Checker::new(CheckerConfig { config, ..CheckerConfig::default() }, custom.clone()).unwrap();
         (custom, c)
